@@ -103,6 +103,8 @@ def run(ctx):
         selftest_forged_expectation_detected=True,
         cases=s["cases"], served=s["served"], not_served=s["not_served"], log_drift=s["log_drift"], applies=s["applies"],
         history_cases=s2["cases"], history_served=s2["served"], history_log_drift=s2["log_drift"],
+        converging_forks=s.get("converging_forks", 0) + s2.get("converging_forks", 0),
+        converging_logs_served=s.get("converging_logs_served", 0) + s2.get("converging_logs_served", 0),
         expected_accept=s["expected_accept"], expected_reject=s["expected_reject"],
         expected_root_already_present=s["expected_root_already_present"],
         traces_validated_against_impl=s["cases"] + s2["cases"], samples=s["samples"][:2], gen_states=g.distinct)
